@@ -9,6 +9,7 @@ import (
 	"encoding/json"
 	"fmt"
 	"os"
+	"path/filepath"
 	"runtime/debug"
 	"strconv"
 	"testing"
@@ -18,11 +19,19 @@ import (
 	"verif.local/ev"
 )
 
-func seedOffsets() []int {
+// seedPlan: which RNG seeds (bubble clock offsets) are explored and to which
+// depth. quick: seeds 0,1 at the quick depth. thorough: seeds 0,1 at the
+// thorough depth and seeds 2..5 at the quick depth.
+type seedRun struct {
+	Off  int  `json:"seed_offset_ns"`
+	Deep bool `json:"thorough_depth"`
+}
+
+func seedPlan() []seedRun {
 	if ev.Thorough() {
-		return []int{0, 1, 2}
+		return []seedRun{{0, true}, {1, true}, {2, false}, {3, false}, {4, false}, {5, false}}
 	}
-	return []int{0, 1}
+	return []seedRun{{0, false}, {1, false}}
 }
 
 // inBubble runs f inside a testing/synctest bubble whose clock reads
@@ -65,9 +74,9 @@ func run(t *testing.T) {
 
 	t0 = time.Now()
 	tot := newStatefulTotals()
-	seeds := seedOffsets()
-	for _, off := range seeds {
-		inBubble(t, off, func() { exploreSeed(r, off, tot) })
+	seeds := seedPlan()
+	for _, sr := range seeds {
+		inBubble(t, sr.Off, func() { exploreSeed(r, sr.Off, sr.Deep, tot) })
 		if r.Violations() > 200 {
 			break
 		}
@@ -80,7 +89,7 @@ func run(t *testing.T) {
 	r.Set("wall_s_dopartition", tD.Seconds())
 	r.Set("bound_completed", map[string]any{
 		"hasher_key_lengths": "0..17 (see hasher_keys_per_group)", "hasher_n": "1..64,100,1000,2147483647",
-		"stateful_depth_per_kind": tot.depths, "stateful_seeds": len(seeds), "dopartition_cases": len(dpCases()),
+		"stateful_max_depth_per_kind": tot.depths, "stateful_seed_plan": seeds, "dopartition_cases": len(dpCases()),
 	})
 	r.Finish()
 }
@@ -139,6 +148,8 @@ func replay(t *testing.T, path string) {
 	default:
 		ev.InfraError("replay: unknown artefact part %q", part.Part)
 	}
+	// the replay run records nothing: drop the artefact copies ev wrote for it
+	os.RemoveAll(filepath.Join(ev.Root(), "violations", "C28-replay"))
 	if r.Violations() > 0 {
 		os.Exit(1)
 	}
